@@ -78,6 +78,16 @@ def mapLine (mt nt cores : Nat) (loc : String) (order : String) : String :=
         let c := s.log.count (m, n); if c > 9 then '9' else Char.ofNat (48 + c))
       "/".intercalate rows ++ s!" next={s.nextN}"
 
+/-- free-running run on a matrix whose tiles are all local: by `map_exactly_once` every tile is visited
+    once; `next_n` ends at its start-up value plus one claim per remaining column plus one final claim
+    per chain -/
+def mapWideLine (mt nt cores : Nat) : String :=
+  let cfg : MapCfg := ⟨mt, nt, cores, fun _ _ => true⟩
+  let s := mapInit cfg
+  let k := s.chains.length
+  let next := if nt ≤ s.nextN then s.nextN + k else (nt - 1) + k
+  s!"ok tiles={mt * nt} next={next}"
+
 /-! ### reduce.jdf -/
 
 def srcDone (done : List (Nat × Nat)) : Src → Bool
@@ -193,6 +203,10 @@ def step (_ : Unit) : List String → Unit × String
   | ["map", mt, nt, cores, loc, order] =>
     match nat? mt, nat? nt, nat? cores with
     | some mt, some nt, some cores => ((), mapLine mt nt cores loc order)
+    | _, _, _ => ((), "bad-op")
+  | ["mapwide", mt, nt, cores] =>
+    match nat? mt, nat? nt, nat? cores with
+    | some mt, some nt, some cores => if mt = 0 ∨ nt = 0 then ((), "bad-op") else ((), mapWideLine mt nt cores)
     | _, _, _ => ((), "bad-op")
   | ["reduce", mt, order] =>
     match nat? mt with
